@@ -25,7 +25,7 @@ URL_PARTS = ["http://", "https://", "ftp://", "//", "", "HTTP://", "wss://", "x:
 HOSTS = ["lemonde.fr", "a.b.co.uk", "localhost", "127.0.0.1", "300.1.1.1", "x.notatld", "x.c", "é.fr", "xn--caf-dma.com", "a_b.com", "-a.com", "x.com.", "LEMONDE.FR", "u:p@x.com", "x", "", "[x@lemonde.fr", "a\u2100.fr", "[::1", "[v1.fe80]"]
 TAILS = ["", "/", "/a b", "/a?q=1#f", ":8080/x", ":8/x", "?q", "#f", "/a\tb", " ", "/é", ":80", "/x@b.com", "?u=a@b.com", "#@lemonde.fr", "/p:q@x.fr/"]
 WORDS = ["see", "this", "link:", "and", "(", ")", ",", ".", "…", "»", "[", "]", "](", "]()", "!", "\n", "text", "http://", "www.x.com", "http://a.com/", "https://b.org/p?q=1",
-         "http://x.a…", "http://c.com/a_(b)", "[http://a.com/](b.com)", "[http://u](p@x.com/", "[t](http://d.net)", "[http://a.com/](", "http://e.fr.", "http://f.com,http://g.com"]
+         "http://x.a…", "http://c.com/a_(b)", "[http://a.com/](b.com)", "[http://u](p@x.com/", "[t](http://d.net)", "[http://a.com/](", "http://e.fr.", "http://f.com,http://g.com", "<", ">", "<http://a.com/>", "<http://b.org/p", "<https://c.com/x>.", "&lt;http://d.net&gt;"]
 
 
 def run(res, tier, rng):
